@@ -826,7 +826,10 @@ where
                 .copy_from_slice(&new_cell.full_data());
             *old_cell.metadata_mut() = *new_cell.metadata();
 
-            self.free_space_pointer_down(free_bytes);
+            // The bytes gained lie BEHIND the new (smaller) cell, in the middle of the cell area:
+            // they are free space to be reclaimed by the next defragmentation, but the free space
+            // pointer (start of the lowest cell) does not move. Moving it would make the next
+            // insert write over a live cell.
             self.add_free_space(free_bytes);
 
             return Ok(owned_cell);
